@@ -29,6 +29,8 @@ type channelState struct {
 	closed     atomic.Bool
 	closedUser atomic.Bool // close user once
 
+	closeUnsent atomic.Bool // SendAndClose closed the channel, but did not queue its close message
+
 	sendMu         sync.Mutex    // enforce single sender
 	sendWindow     atomic.Int32  // remaining send window, can become negative on sending large messages
 	sendWindowWait chan struct{} // wait for send window increment
